@@ -6,7 +6,8 @@ import json, os, subprocess, sys, shutil, tempfile, re, glob
 pid = sys.argv[1]
 ROUND2 = "--round2" in sys.argv
 ROUND3 = "--round3" in sys.argv
-wt = ("/tmp/ref3-%s" if ROUND3 else "/tmp/ref2-%s" if ROUND2 else "/tmp/ref-%s") % pid
+ROUND4 = "--round4" in sys.argv
+wt = ("/tmp/ref4-%s" if ROUND4 else "/tmp/ref3-%s" if ROUND3 else "/tmp/ref2-%s" if ROUND2 else "/tmp/ref-%s") % pid
 env = dict(os.environ, CARGO_TARGET_DIR=wt + "/target", CARGO_NET_OFFLINE="true")
 
 
@@ -17,7 +18,7 @@ def sh(cmd, **kw):
 
 for sd in sorted(glob.glob(os.path.join(wt, "ref[0-9]"))):
     k = sd[-1]
-    out = "/verif/%s/%s-%s" % ("benign3" if ROUND3 else "benign2" if ROUND2 else "benign", pid, k)
+    out = "/verif/%s/%s-%s" % ("benign4" if ROUND4 else "benign3" if ROUND3 else "benign2" if ROUND2 else "benign", pid, k)
     res = {}
     sh("git checkout -- . ; git clean -fdq -e 'ref*' -e target")
     rc, o = sh("git apply %s/patch.diff" % sd)
